@@ -49,12 +49,14 @@ OPTIMISER = {'maxent_dist', 'marginal_maxent_dists', 'PID_CCS', 'ConnectedInform
              'moment_maxent_dists', 'hypercontractivity', 'MUIProfile', 'stochastic_gk',
              # coverage-gap round (random restarts from NumPy's global generator, like the ones above)
              # (measured spread of repetitions on 14 inputs x 4 runs: <= 1e-6 for each of these)
-             'MaxEntOptimizer', 'PID_MES', 'PID_IG', 'PED_CS', 'PID_RAV', 'PID_RA', 'ConnectedDualInformations', 'SchneidmanProfile'}
+             'MaxEntOptimizer', 'PID_MES', 'PED_CS', 'PID_RAV', 'PID_RA', 'ConnectedDualInformations', 'SchneidmanProfile'}
 
 
 # non-convex problems solved from random starting points (basin hopping): "stochastic optimisers" in the words
 # of the property; their values are not compared across repetitions, purity still is
-STOCHASTIC = {'wyner_common_information', 'exact_common_information', 'intrinsic', 'deweese', 'secrecy_capacity',
+# (PID_IG: dit/pid/measures/iig.py starts its one-dimensional minimisation from x0 = np.random.random(), an explicitly
+# random starting point, and can end in different local minima: seed 3 of the quick tier, 2026-09-30)
+STOCHASTIC = {'PID_IG', 'wyner_common_information', 'exact_common_information', 'intrinsic', 'deweese', 'secrecy_capacity',
               'hypercontractivity', 'stochastic_gk', 'DependencyDecomposition', 'necessary_intrinsic',
               # coverage-gap round: basin hopping from random points (dit.algorithms.distribution_optimizers' non-convex
               # classes, the one-way secret key agreement rate and the decomposition built on it)
